@@ -22,6 +22,9 @@ UNIT = {
         (IFS, ['struct Ifs'], {'attrs': ['#[verifier::external_body]'], 'drop_derives': True}),
         ('@raw', 'use Class::*;\n'),
         ('@file', 'prelude.rs'),
+        # accessors of the opaque separator set: present so that code using them still compiles and is judged
+        (IFS, ["impl Ifs<'_>#0", 'fn chars'], {'attrs': ['#[verifier::external_body]']}),
+        (IFS, ["impl Ifs<'_>#0", 'fn non_whitespaces'], {'attrs': ['#[verifier::external_body]']}),
         (IFS, ["impl Ifs<'_>#0", 'fn is_ifs'], {'attrs': ['#[verifier::external_body]'], 'ret': 'r', 'ensures': ['r == in_ifs(self, c)']}),
         (IFS, ["impl Ifs<'_>#0", 'fn is_ifs_non_whitespace'], {'attrs': ['#[verifier::external_body]'], 'ret': 'r', 'ensures': ['r == in_ifs_non_whitespace(self, c)']}),
         (IFS, ["impl Ifs<'_>#0", 'fn classify'], {'ret': 'r', 'ensures': ['r == ifs_class(self, c)']}),
